@@ -197,8 +197,8 @@ impl Prop for C04 {
 
     fn budget(tier: Tier) -> Budget {
         match tier {
-            Tier::Quick => Budget { cases: 400, shards: 16 },
-            Tier::Thorough => Budget { cases: 10_000, shards: 16 },
+            Tier::Quick => Budget { cases: 3200, shards: 16 },
+            Tier::Thorough => Budget { cases: 25600, shards: 16 },
         }
     }
 
